@@ -3,7 +3,7 @@
 From Coq Require Import List ZArith NArith Bool String.
 From GrolGen Require Import Gen_Consts.
 From GrolModel Require Import Ast Lexer Parser Printer AstWf Frontend.
-From GrolProofs Require Import Front_tables Printer_proofs Parser_proofs Parser_nopanic Front_nopanic.
+From GrolProofs Require Import Front_tables Printer_proofs Parser_proofs Parser_nopanic Front_nopanic Parser_term.
 Import ListNotations.
 
 (* every parse function registered in parser.New is one the parser model implements (so the model
@@ -27,6 +27,32 @@ Proof. exact print_total. Qed.
 Theorem C08_front_end_never_panics : forall (conv : numconv) (lineMode : bool) (src : bytes) w,
   front_parse conv lineMode src <> PPanic w.
 Proof. exact front_never_panics. Qed.
+
+(* lexing + parsing terminate: the fuel the model is started with (4 per token + 64) is never exhausted, for
+   every byte string, both lexer modes, every number oracle.  Measure: the number of tokens not yet consumed
+   that are not end markers; every loop iteration consumes one or is the last, and between two consumed tokens
+   the call depth grows by at most 4 (proofs/Parser_term.v: constants 8..12 per function, one induction on the
+   fuel over the 13 mutually recursive functions) *)
+Theorem C08_front_end_terminates : forall (conv : numconv) (lineMode : bool) (src : bytes),
+  front_parse conv lineMode src <> POutOfFuel.
+Proof. exact front_parse_terminates. Qed.
+
+(* hence the front end is a total function: it always returns errors, a continuation request or a tree *)
+Theorem C08_front_end_total : forall (conv : numconv) (lineMode : bool) (src : bytes),
+  exists r, front_parse conv lineMode src = POk r.
+Proof.
+  intros conv lm src. destruct (front_parse conv lm src) as [r|w|] eqn:E.
+  - now exists r.
+  - exfalso. exact (front_never_panics conv lm src w E).
+  - exfalso. exact (front_parse_terminates conv lm src E).
+Qed.
+
+(* the parser alone, on any token list whose end-marker-typed tokens form a suffix *)
+Theorem C08_parser_terminates : forall conv end_type toks,
+  end_type = token_EOF \/ end_type = token_EOL ->
+  closed (mkPtok (mkTok end_type []) false false) toks ->
+  parse_program conv (default_fuel toks) end_type toks <> POutOfFuel.
+Proof. exact parse_program_terminates. Qed.
 
 (* the parser alone, on any token stream in which a line comment is followed by a new line or the end *)
 Theorem C08_parser_never_panics : forall conv fuel end_type toks,
@@ -68,3 +94,6 @@ Print Assumptions C08_clean_tree_prints.
 Print Assumptions C08_printer_tokens_have_prec.
 Print Assumptions C08_print_total.
 Print Assumptions C08_parser_never_panics.
+Print Assumptions C08_front_end_terminates.
+Print Assumptions C08_front_end_total.
+Print Assumptions C08_parser_terminates.
